@@ -9,6 +9,35 @@ TB = ("rustc (nightly 1.97) parsing, macro expansion, type checking and MIR cons
       "hand-written oracle tables under spec/ (each entry carries its reason)")
 
 CLAIMS = {
+    "C01": {
+        "technique": "static analysis: composition of structural preconditions - codec table agreement, loader abstract interpretation, append-only and cast census from MIR, traversal/assembly order",
+        "text": "Decides the structural preconditions of the round trip on the current source: codec pairing (C02's rules), every accepted instruction moved into exactly one container and the "
+                "loader's automaton (C05's rules), the loader only appends (MIR census), the assembler reads every container the loader writes in logical-layout order (C15's rules + coverage join), "
+                "header rebuilt from version/bound and emitted in order, framing, no lossy narrowing cast between decoding and storing. The equality `for all accepted B` itself is not computed.",
+        "design_ref": "DESIGN.md 3/C01", "note": TB,
+    },
+    "C04": {
+        "technique": "static analysis: panic reachability - whole-workspace call graph from resolved MIR callees, census of assert terminators and may-panic std calls, audit table with machine-checked guards",
+        "text": "From the public entry points, every panic-capable construct in every reachable function (compiler-inserted overflow/bounds/division asserts, may-panic std calls, panic!/assert! "
+                "expansions) must match an audit entry with the audited count, every external callee must be classified, each entry's discharge (dominating guard, table fact, rule of C05/C09/C11) is "
+                "re-derived on each run; exactly one unsafe block with the audited shape; progress of the operand loop; no recursion outside the module walk. Allocation failure, stack depth, "
+                "panicking caller-supplied impls are outside the claim.",
+        "design_ref": "DESIGN.md 3/C04, Appendix C", "note": TB + "; O-STD classification and O-AUDIT reasons (vcheck/audit.py)",
+    },
+    "C19": {
+        "technique": "static analysis: MIR mutation census of Storage.data and Token construction sites, visibility facts, normalised shape of append/fetch_or_append/Index",
+        "text": "Storage.data is mutated only by append (one Vec::push), tokens are built only by Token::new (crate::sr-visible), append returns the pre-push length, fetch_or_append is "
+                "first-equal-else-append with the caller's PartialEq, Index reads data[token.index], index type at least 32 bits, LiftStorage uses only append/Index: density, stability and "
+                "first-equal semantics then hold for every history.",
+        "design_ref": "DESIGN.md 3/C19", "note": TB + "; Vec::push/Iterator::position semantics",
+    },
+    "C20": {
+        "technique": "static analysis: shape rule on main(), panic reachability from main over the workspace call graph (O-STD/O-AUDIT), totality of the error Display impls",
+        "text": "main reads the named file, then a single match on load_bytes prints the disassembly or the error with println!, nothing else, no explicit exit, returns (); no unaudited "
+                "panic-capable site is reachable from main (C04's census extended with main's own sites); error messages are total one-liners. A closed stdout is outside the claim.",
+        "design_ref": "DESIGN.md 3/C20", "note": TB + "; clap exits with a usage message when the required argument is missing (outside the quantifier)",
+    },
+
     "C03": {
         "technique": "static analysis: decision tables of parse_header/parse_inst/parse_operands from path conditions of every result site (syntax tree), MIR field-write census, C14's CFG rules",
         "text": "The header, framing and quantifier decision tables are extracted (each result site with the semantic atoms that hold on its path) and compared with the statement's tables; "
